@@ -1,11 +1,17 @@
-(* c15 model driver.  input: <D|R> <facts>\t<view of the real JSON (compact, UTF-8)>
+(* c15 model driver.  input: <D|R> <facts>\t<view of the real JSON (compact, UTF-8)>\t<hex of the pretty rendering of that view>
    (facts format: harness/src/bin/c15.rs).  output:
    <model's serialisation, UTF-8 | P;;>\t<1|0: the model's parser accepts the real view and re-serialises it to the
    same code points>\t<model confidence bits of the bit flips, joined by ,>\t<1|0: wf_ok st>\t<1|0: real_conforms
-   on the code points of the real view>\t<1|0: real_widths width view> *)
+   on the code points of the real view>\t<1|0: real_widths width view>\t<hex of the UTF-8 bytes of the model's pretty
+   rendering | P;;>\t<1|0: pretty_ok: the whitespace-tolerant parser of c15_pretty_parse accepts the real pretty text and
+   yields the value of the real compact text> *)
 (* UTF-8 is done by the extracted Gallina encoder / strict decoder (Driver.encode_utf8 / decode_utf8) *)
 let bytes_of_string (s : string) : z list = List.init (String.length s) (fun i -> z_of_int (Char.code s.[i]))
 let add_cps (b : Buffer.t) (cps : z list) = List.iter (fun z -> Buffer.add_char b (Char.chr (int_of_z z))) (encode_utf8 cps)
+
+let bytes_of_hex (h : string) : z list =
+  if h = "-" then [] else List.init (String.length h / 2) (fun i -> z_of_int (int_of_string ("0x" ^ String.sub h (2 * i) 2)))
+let hex_of_cps (b : Buffer.t) (cps : z list) = List.iter (fun z -> Buffer.add_string b (Printf.sprintf "%02x" (int_of_z z))) (encode_utf8 cps)
 
 let str_of_tok (t : string) : z list =
   (* s<hex>.<hex>... *)
@@ -19,7 +25,10 @@ let () =
       if String.length line > 0 && line.[0] <> '#' then begin
         let tab = String.index line '\t' in
         let head = String.sub line 0 tab in
-        let real_view = String.sub line (tab + 1) (String.length line - tab - 1) in
+        let tail = String.sub line (tab + 1) (String.length line - tab - 1) in
+        let tab2 = String.index tail '\t' in
+        let real_view = String.sub tail 0 tab2 in
+        let real_pretty_hex = String.sub tail (tab2 + 1) (String.length tail - tab2 - 1) in
         let toks = Array.of_list (split_ws head) in
         let pos = ref 0 in
         let next () = let t = toks.(!pos) in incr pos; t in
@@ -114,6 +123,13 @@ let () =
           | Some n -> Some (List.init n (fun _ ->
               let h = onum () in let tn = ostr () in let on = ostr () in
               { h_handle = h; h_type = tn; h_object = on }))) in
+        expect "SOFT";
+        let (soft, keep_soft) = (match next () with
+          | "-" -> (None, true)
+          | "x" -> (None, false)
+          | t -> (match parse_soft (bytes_of_hex (String.sub t 1 (String.length t - 1))) with
+                  | Some j -> (Some j, true)
+                  | None -> failwith "SOFT: the model's parser rejects the compact rendering of the state's soft_errors value")) in
         expect "TH";
         let n = int_of_string (next ()) in
         let threads = List.init n (fun _ ->
@@ -165,10 +181,11 @@ let () =
         let st = { s_width = w; s_pid = pid; s_threads = threads; s_requesting = req; s_registers = regs;
                    s_modules = mods; s_unloaded = unl; s_crash = crash; s_sys = sys; s_lsb = lsb; s_mapcount = mapc;
                    s_certinfo = certs; s_symstats = stats; s_assertion = assertion; s_limits = limits; s_mac_crash = mac;
-                   s_bootargs = bootargs; s_handles = handles } in
+                   s_bootargs = bootargs; s_handles = handles; s_soft = soft } in
         let b = Buffer.create 4096 in
-        (match run_state prof st with
-         | Some cps -> add_cps b cps
+        let report = run_report prof keep_soft st in
+        (match report with
+         | Some j -> add_cps b (render_compact j)
          | None -> Buffer.add_string b "P;;");
         let decoded = decode_utf8 (bytes_of_string real_view) in
         let real_cps = (match decoded with Some l -> l | None -> []) in
@@ -185,6 +202,13 @@ let () =
         Buffer.add_string b (if real_conforms real_cps then "1" else "0");
         Buffer.add_char b '\t';
         Buffer.add_string b (if real_widths w real_cps then "1" else "0");
+        Buffer.add_char b '\t';
+        (match report with
+         | Some j -> hex_of_cps b (render_pretty j)
+         | None -> Buffer.add_string b "P;;");
+        Buffer.add_char b '\t';
+        let pretty_cps = (match decode_utf8 (bytes_of_hex real_pretty_hex) with Some l -> l | None -> []) in
+        Buffer.add_string b (if decoded <> None && pretty_ok pretty_cps real_cps then "1" else "0");
         print_endline (Buffer.contents b)
       end
     done
